@@ -179,7 +179,7 @@ func c08BeansOracle(c *Ctx, base string) {
 			replay := map[string]interface{}{"level": "BeansDB", "vallen": valLen, "cut": cut, "body_len": bodyLen, "recipe": "Put(4,key,0x11*n); drain; close; tmp.data := FileUtilsEncode(4,key,0x22*n)[:cut]; reopen; Get(4,key)"}
 			if st != "ok" {
 				c.Count("beans:" + class + ":reopen-panic")
-				c08Fail(c, "c08/reopen-panic", fmt.Sprintf("BeansDB.Start panics after tmp.data was cut at byte %d of a %d-byte record (%s)", cut, len(enc2), class), replay)
+				c08Fail(c, "c08/reopen-panic/torn-record", fmt.Sprintf("BeansDB.Start panics after tmp.data was cut at byte %d of a %d-byte record (%s)", cut, len(enc2), class), replay)
 				b2.close()
 				continue
 			}
@@ -194,7 +194,7 @@ func c08BeansOracle(c *Ctx, base string) {
 			case err != nil:
 				c.Count("beans:" + class + ":get-error")
 				c08Fail(c, "c08/value-unreadable", fmt.Sprintf("cut %d (%s): Get fails: %v", cut, class, err), replay)
-			case bytes.Equal(got, want):
+			case bytes.Equal(got, want) || bytes.Equal(got, val2):
 				c.Count("beans:" + class + ":intact")
 			default:
 				zeros := 0
@@ -204,7 +204,7 @@ func c08BeansOracle(c *Ctx, base string) {
 					}
 				}
 				c.Count("beans:" + class + ":torn-redelivered")
-				c08Fail(c, "c08/torn-record-redelivered", fmt.Sprintf("BeansDB: key held %d x 0x11 (durable in the bitcask); the write of %d x 0x22 was cut at byte %d of tmp.data (%s); after reopen the key reads %d bytes of which %d are zero — neither the old nor the new value, the intact copy is overwritten", valLen, valLen, cut, class, len(got), zeros), replay)
+				c08Fail(c, "c08/torn-record-redelivered/beansdb", fmt.Sprintf("BeansDB: key held %d x 0x11 (durable in the bitcask); the write of %d x 0x22 was cut at byte %d of tmp.data (%s); after reopen the key reads %d bytes of which %d are zero — neither the old nor the new value, the intact copy is overwritten", valLen, valLen, cut, class, len(got), zeros), replay)
 			}
 		}
 		os.RemoveAll(filepath.Join(base, "img"))
@@ -533,6 +533,9 @@ func c08CheckDump(c *Ctx, w *c08Workload, img *c08Image, d *c08Dump, phase strin
 	var fails []string
 	fail := func(sig, detail string) {
 		fails = append(fails, sig)
+		if img.class != "" {
+			sig = sig + "/" + img.class
+		}
 		c08Fail(c, sig, fmt.Sprintf("[%s; %s] %s", img.name, phase, detail), img.replay)
 	}
 	if !d.Idle {
@@ -674,6 +677,13 @@ func c08ChainOracle(c *Ctx, base string) {
 				os.WriteFile(filepath.Join(im.dir, "context.data"), mixed, 0644)
 				im2 := newImg(snaps[h], fmt.Sprintf("promotion %d: context.data body write torn in the middle of the new candidate slot", h), "context-body-torn", h, -1)
 				os.WriteFile(filepath.Join(im2.dir, "context.data"), newCtx[:len(oldCtx)+20], 0644)
+				// body torn inside the 8-byte {Pos,Len} prefix of the last 64-byte candidate slot
+				nslots := (len(newCtx) - 22) / 64
+				if nslots >= 1 {
+					cut := 22 + 64*(nslots-1) + 2
+					im3 := newImg(snaps[h], fmt.Sprintf("promotion %d: context.data body write torn at byte %d of %d (inside the position prefix of candidate slot %d)", h, cut, len(newCtx), nslots), "context-slot-torn", h, -1)
+					os.WriteFile(filepath.Join(im3.dir, "context.data"), newCtx[:cut], 0644)
+				}
 			}
 		}
 		// first start: context.data created, crash before its first Flush
@@ -708,12 +718,12 @@ func c08ChainOracle(c *Ctx, base string) {
 			r := results[i]
 			if r.out == nil {
 				c.Count("chain:" + img.class + ":process-died")
-				c08Fail(c, "c08/reopen-crash", fmt.Sprintf("[%s] the process reopening the data directory dies: %s", img.name, r.die), img.replay)
+				c08Fail(c, "c08/reopen-crash/"+img.class, fmt.Sprintf("[%s] the process reopening the data directory dies: %s", img.name, r.die), img.replay)
 				continue
 			}
 			if r.out.OpenPanic != "" {
 				c.Count("chain:" + img.class + ":reopen-panic")
-				c08Fail(c, "c08/reopen-panic", fmt.Sprintf("[%s] NewChainDataBase panics: %s", img.name, r.out.OpenPanic), img.replay)
+				c08Fail(c, "c08/reopen-panic/"+img.class, fmt.Sprintf("[%s] NewChainDataBase panics: %s", img.name, r.out.OpenPanic), img.replay)
 				continue
 			}
 			maxSt := img.completed
@@ -726,7 +736,7 @@ func c08ChainOracle(c *Ctx, base string) {
 				for _, s := range r.out.Cont {
 					if !strings.HasSuffix(s, ":ok/ok") {
 						fails = append(fails, "c08/restart-rejects-block")
-						c08Fail(c, "c08/restart-rejects-block", fmt.Sprintf("[%s] restarted node (stable %d) re-applies the workload's next blocks: %v — the continuous node accepted all of them", img.name, r.out.First.Stable, r.out.Cont), img.replay)
+						c08Fail(c, "c08/restart-rejects-block/"+img.class, fmt.Sprintf("[%s] restarted node (stable %d) re-applies the workload's next blocks: %v — the continuous node accepted all of them", img.name, r.out.First.Stable, r.out.Cont), img.replay)
 						break
 					}
 				}
@@ -738,7 +748,7 @@ func c08ChainOracle(c *Ctx, base string) {
 				}
 				for _, nt := range r.out.Notes {
 					fails = append(fails, "c08/reopen-panic")
-					c08Fail(c, "c08/reopen-panic", fmt.Sprintf("[%s] %s", img.name, nt), img.replay)
+					c08Fail(c, "c08/reopen-panic/second-reopen", fmt.Sprintf("[%s] %s", img.name, nt), img.replay)
 				}
 			}
 			if len(fails) == 0 {
